@@ -119,7 +119,7 @@ func GenDaemon(prop string, seed uint64, tier string) *DaemonScenario {
 		sc.Extra = 1
 		sc.PeriodS = 2
 		sc.Net.DropPct, sc.Net.DupPct = 0, r.Range(0, 8)
-		cmds := []string{"accept", "reject", "join", "execute", "abort", "reshare_ok", "reshare_ok", "reshare_low_threshold", "reshare_high_threshold", "reshare_expired",
+		cmds := []string{"accept", "reject", "join", "execute", "abort", "reshare_ok", "reshare_ok", "reshare_ok_leaver", "reshare_low_threshold", "reshare_high_threshold", "reshare_expired",
 			"reshare_drop_member", "reshare_leader_leaves", "reshare_unknown_remainer", "reshare_few_remainers", "reshare_few_remainers"}
 		forges := []string{"proposal_by_attacker_key", "proposal_by_other_member_key", "proposal_with_shadow_joiner", "proposal_with_shadow_joiner", "accept_for_someone_else", "abort_by_non_leader", "execute_by_non_leader", "mut_sender", "mut_sigbyte", "mut_terms"}
 		for k := r.Range(5, 12); k > 0; k-- {
@@ -133,7 +133,12 @@ func GenDaemon(prop string, seed uint64, tier string) *DaemonScenario {
 			}
 			if r.Bool(25) {
 				// a pending proposal, then something that needs one
-				sc.DKGSteps = append(sc.DKGSteps, DKGStep{K: "cmd", Node: 0, S: "reshare_ok"})
+				sc.DKGSteps = append(sc.DKGSteps, DKGStep{K: "cmd", Node: 0, S: r.Pick("reshare_ok", "reshare_ok", "reshare_ok_leaver")})
+				if prop == "C09" && r.Bool(50) {
+					// packets that only the leader may send, sent by another member, to every role
+					sc.DKGSteps = append(sc.DKGSteps, DKGStep{K: "forge", Node: r.Intn(sc.N), S: r.Pick("execute_by_non_leader", "abort_by_non_leader"), A: r.Intn(100)},
+						DKGStep{K: "forge", Node: sc.N - 1, S: "execute_by_non_leader", A: r.Intn(100)})
+				}
 				switch {
 				case prop == "C08" || r.Bool(30):
 					sc.DKGSteps = append(sc.DKGSteps, DKGStep{K: "race", S: r.Pick("accept", "reject"), A: []int{0, 1, 50, 500, 3000, 20000}[r.Intn(6)]})
